@@ -74,7 +74,7 @@ def model_check(ctx):
         ("overrides applied: KV watcher + update loop, 2 documents", cfg(clients="{c1}", ro="{}", paths=2, values='{"addM1", "delM1"}',
                                                                        ops=ctx.pick(1, 2), ext=2, wman=True, rest=CODE_SAFE), True),
         ("no-route page: key, watcher, loop, requests", cfg(clients="{}", ro="{}", ops=0, ext=0, nr=ctx.pick(3, 4), req=2, wnr=True, rest=CODE_SAFE), True),
-        ("both pipelines next to one writer", cfg(clients="{c1}", ro="{}", values='{"addM1"}', ops=1, ext=ctx.pick(0, 1), nr=ctx.pick(1, 2), req=1, wman=True, wnr=True, rest=CODE_SAFE), True),
+        ("both pipelines next to one writer", cfg(clients="{c1}", ro="{}", values='{"addM1"}', ops=1, ext=ctx.pick(0, 1), nr=1, req=1, wman=True, wnr=True, rest=CODE_SAFE), True),
     ]
     never = None
     for name, text, _ in runs:
